@@ -5,6 +5,7 @@ use crate::rt::{Ctx, Json};
 
 pub mod c02;
 pub mod c03;
+pub mod c04;
 pub mod c16;
 
 macro_rules! dispatch {
@@ -12,6 +13,7 @@ macro_rules! dispatch {
         match $ctx.property.as_str() {
             "C02" => c02::$f($ctx $(, $arg)*),
             "C03" => c03::$f($ctx $(, $arg)*),
+            "C04" => c04::$f($ctx $(, $arg)*),
             "C16" => c16::$f($ctx $(, $arg)*),
             other => {
                 let msg = format!("no monitor for property {}", other);
